@@ -374,3 +374,19 @@ func TestC08(t *testing.T) {
 	t.Run("model-relayout", c08Model.Run)
 	t.Run("corpus-rewrite", c08Corpus.Run)
 }
+
+// c08Shapes: two hand-written renderings of one document that differ in one layout shape the generators do not produce
+// (because an open finding is known for it).  The signature names the shape, so that the finding is matched exactly.
+var c08Shapes = &vlib.Check{
+	Prop: "C08", Name: "shape-pair",
+	Oracle: func(c *vlib.Case) *vlib.Violation {
+		v := sameCatalogOracle("c08", "other layout")(c)
+		if v == nil {
+			return nil
+		}
+		shape, _ := c.Params["shape"].(string)
+		return vlib.V("c08:layout-changes-catalog:"+shape, "%s", v.Detail)
+	},
+}
+
+func init() { vlib.Register(c08Shapes) }
